@@ -104,3 +104,26 @@ Theorem C10_set_type_changes_only_on_positive_reply : forall t w,
    exists r, fst (step w (ASetType t)) = OReturn (RvReply r) /\ is_positive r = true).
 Proof. exact set_type_changes_only_on_ack. Qed.
 Print Assumptions C10_set_type_changes_only_on_positive_reply.
+
+From LibFtp Require Import Dispatch_Global Commands_Global.
+(* ------------------------------------------------------------------ every call, every state, every server *)
+(* [allowed a l]: l is a command line of the row of call a in the table of prescribed commands (connect: AUTH TLS and the
+   lines of a login; login: USER, PASS, PBSZ 0, PROT P, TYPE I / TYPE A; logout: REIN; rename: RNFR, RNTO; set_transfer_type:
+   TYPE; a transfer or listing: EPSV / PASV / EPRT .. / PORT .., its own transfer command with the caller's path, ABOR;
+   graceful disconnect: QUIT; the raw calls: their own line). Every command line a call writes is in its row - no HOST, no
+   FEAT, no second AUTH, no command of another operation - whatever the server answers. *)
+Theorem C10_call_writes_only_prescribed_commands : forall a w,
+  exists tr, w_trace (snd (step w a)) = w_trace w ++ tr /\ Forall (okc (allowed a)) tr.
+Proof. exact step_writes_only_prescribed_commands. Qed.
+Print Assumptions C10_call_writes_only_prescribed_commands.
+
+Theorem C10_wire_line_is_prescribed : forall a w tr s o l,
+  w_trace (snd (step w a)) = w_trace w ++ tr -> In (EWire s o l) tr -> allowed a l.
+Proof. exact wire_line_is_prescribed. Qed.
+Print Assumptions C10_wire_line_is_prescribed.
+
+Example C10_commands_example :
+  let w := snd (step (init_world (mkConfig Passive true TBinary true false) commands_script) (AConnect [104%N] 21%N (Some ([117%N], [112%N])))) in
+  map (fun e => match e with EWire _ _ l => l | _ => [] end) (filter (fun e => match e with EWire _ _ _ => true | _ => false end) (w_trace w)) =
+  [AUTH_TLS; USER_ ++ [SP; 117%N]; PASS_ ++ [SP; 112%N]; PBSZ_0; PROT_P; TYPE_ ++ [SP; 73%N]].
+Proof. exact commands_example. Qed.
